@@ -42,6 +42,39 @@ def check_fwd(project: Project, rep):
         raise AnalysisError("GL-FWD: transform not found")
     rep.analysed(tr)
     want = ("start", "stop", "num_steps", "hom_deg")
+    # position = homological degree: a collection with an EMPTY diagram in a lower degree must reach the constructor with every
+    # diagram in its place (an entry-normalisation that drops empty members shifts the degrees above it)
+    from ..core.values import fix
+    for probe in (1,):
+        def stub0(I, bound, n):
+            return ObjV(AP, {"values": Arr([(rows("D"), fresh()), (rows("G"), fresh())], sym.Opq("vals", ())),
+                             **{k: v for k, v in bound.items() if k in want}})
+        I0 = Interp(project, Config(nonempty={("rows", "D"), ("rows", "G"), ("rows", "X0"), ("rows", "X2")}, finite_inputs={"X0", "X2"},
+                                    flags={"stub_ctor": {AP: stub0}}))
+        me0 = ObjV(LSC, {**{k: Sc(sym.Sym(f"self_{k}")) for k in want}, "flatten": Sc(sym.TRUE)})
+        E = Arr([(fix(0), fresh()), (fix(2), fresh())], sym.Opq("empty", ()), "nd")
+        X3 = Seq([dgm_input("X0"), E, dgm_input("X2")], "list")
+        try:
+            I0.call_function(tr, [me0, X3], {}, None)
+        except Exception:
+            break
+        cons0 = [ev for ev in I0.log if ev["kind"] == "construct" and ev["cls"] == AP]
+        if len(cons0) != 1 or not I0.clean_before(cons0[0]):
+            break
+        got0 = cons0[0]["args"].get("dgms")
+        if isinstance(got0, Seq) and all(isinstance(a_, Arr) for a_ in got0.items):
+            def tag(a_):
+                return sorted({x[1] for x in sym.walk(a_.elem) if x[0] == "in"}) or (["<empty>"] if any(
+                    sp.concrete == 0 for sp, _ in a_.axes) else ["?"])
+            layout = [tag(a_) for a_ in got0.items]
+            if layout == [["X0"], ["<empty>"], ["X2"]]:
+                rep.discharged("GL-FWD", tr, cons0[0]["node"], "a collection with an empty diagram in degree 1 reaches the constructor "
+                                                               "with every diagram in its place", nontrivial=False)
+            elif ["?"] not in layout:
+                rep.refuted("GL-FWD", tr, cons0[0]["node"],
+                            f"a collection [H0, <empty H1>, H2] reaches the constructor as {layout}: the diagrams no longer sit at the "
+                            f"position of their homological degree (hom_deg=2 then reads another degree's diagram, or fails)",
+                            construct=f"{tr.qualname}: positions of the diagrams")
     for flat in (True, False):
         d, g = fresh(), fresh()
         vals = Arr([(rows("D"), d), (rows("G"), g)], sym.In("vals", ((d, 0), (g, 0))))
@@ -72,8 +105,20 @@ def check_fwd(project: Project, rep):
                 (unk if (v is None or isinstance(v, Unknown)) and k in bound else bad).append(
                     f"{k}={sym.show(v.e)[:60] if isinstance(v, Sc) else ('<default>' if v is None else type(v).__name__)} "
                     f"(should be self.{k})")
-            if bound.get("dgms") is not X:
-                bad.append("dgms is not the data passed to transform")
+            got_d = bound.get("dgms")
+            if got_d is not X:
+                # a normalised copy of the collection is the same data when it holds the same diagrams in the same places
+                def same_item(a_, b_):
+                    return a_ is b_ or (isinstance(a_, Arr) and isinstance(b_, Arr) and a_.ndim == b_.ndim
+                                        and sym.equal(a_.renamed().elem, b_.renamed().elem) is True) \
+                        or (isinstance(a_, Arr) and isinstance(b_, Arr) and repr(a_) == repr(b_))
+                if isinstance(got_d, Seq) and len(got_d.items) == len(X.items) and all(same_item(a_, b_) for a_, b_ in zip(got_d.items, X.items)):
+                    pass
+                elif isinstance(got_d, Seq) and all(isinstance(a_, Arr) for a_ in got_d.items) and (
+                        len(got_d.items) != len(X.items) or any(any(same_item(a_, b_) for b_ in X.items) for a_ in got_d.items)):
+                    bad.append("dgms is not the data passed to transform (other diagrams, or the same in other places)")
+                else:
+                    unk.append("dgms: what reaches the constructor could not be compared with the data passed to transform")
             if bad and not I.clean_before(cons[0]):
                 rep.unmodelled("GL-FWD", tr, cons[0]["node"], "the constructor's arguments could not be followed (a step before the "
                                                               "call was not modelled): " + "; ".join(bad)[:160])
@@ -187,10 +232,13 @@ def check_grid(project: Project, rep):
         fi = project.function(q)
         rep.analysed(fi)
         f = fn_view(project, fi)
-        if len(fi.params) < 4:
+        if all(x in fi.params for x in ("start", "stop", "num_steps")):
+            P3 = ("start", "stop", "num_steps")   # by name: they may be keyword-only or sit behind a shim for positional calls
+        elif len(fi.params) >= 4 and not (fi.node.args.vararg or fi.node.args.kwonlyargs):
+            P3 = tuple(fi.params[1:4])
+        else:
             rep.unmodelled("GL-GRID", fi, fi.node, f"unexpected signature {fi.params}")
             continue
-        P3 = tuple(fi.params[1:4])
         all_ls = _linspace_calls(project, fi, f)
         tg = [c for c in all_ls if _grid_args(f, c)[:3] == P3]
         others = [c for c in all_ls if _grid_args(f, c)[:3] != P3 and _owner_grid(f, c) is None]
